@@ -4,7 +4,7 @@ from .. import scriptprop
 ID = "C14"
 RULE = ("calls of every helper on lists of length 0..12 over small universes (duplicates), callbacks from the shared position-sensitive family "
         "(acc(s,v)=31s+v+1, v mod m = r, v mod m, equality mod m, converter failing at position j); inputs re-observed after the call and after mutating the result; "
-        "non-trivial = list of length >= 2")
+        "the equals family includes a non-symmetric member (a is half of b); non-trivial = list of length >= 2")
 ASSUMPTIONS = ["'returns a new slice' is observed by mutating the result and re-reading the input, not proved", "map iteration order is arbitrary (results sorted or judged relationally)"]
 
 
